@@ -1033,7 +1033,7 @@ def gen_cases(tier, seed):
         cases.append((t, [{"x": ["int", 2], "y": ["int", 1], "c": ["int", 1], "tmp": ["int", 7]},
                           {"x": ["int", -1], "y": ["int", 0], "c": ["int", 0]}], "exhaustive"))
         dist["exhaustive"] += 1
-    n = {"quick": (200, 170, 250), "thorough": (5000, 4000, 6000)}[tier if tier in ("quick", "thorough") else "quick"]
+    n = {"quick": (200, 170, 250), "thorough": (2500, 2000, 3000)}[tier if tier in ("quick", "thorough") else "quick"]
     streams = [("lowered_statements", lowered_from_statements, n[0]), ("lowered_builder", lowered_from_builder, n[1]),
                ("raw", None, n[2])]
     for name, fn, cnt in streams:
